@@ -21,6 +21,12 @@ def pick_value(rng):
     return rng.randint(1, 99)
 
 
+# 64-bit items whose halves, sign bits and truncations to 8/16/32 bits all differ: an implementation that narrows the
+# item anywhere on its way through the buffer changes at least one of them
+WIDE = [0, 1, 2**64 - 1, 2**31 - 1, 2**31, 2**32 - 1, 2**32, 2**32 + 5, 2**33 + 7, 2**63 - 1, 2**63, 2**63 + 1,
+        0x0123456789ABCDEF, 0xFEDCBA9876543210, 255, 256, 65535, 65536]
+
+
 class RbufGen:
     name = "rbuf"
 
@@ -41,6 +47,8 @@ class RbufGen:
                             ops.append("dequeue")
                     ops.append("destroy")
                     out.append(ops)
+        for w in WIDE:
+            out.append(["new cap=2", f"enqueue {w}", "enqueue 3", "peek 0", f"enqueue {w}", "dequeue", "dequeue", "destroy"])
         out.append(["new cap=2 fail=1", "destroy"])
         out.append(["new cap=2 fail=2", "destroy"])
         out.append(["new_default", "enqueue 1", "dequeue", "dequeue", "destroy"])
@@ -64,7 +72,7 @@ class RbufGen:
                     ops.append(f"peek {rng.choice([-1, 0, cap - 1, cap, cap + 1, -2147483648, 2147483647, rng.randint(-3, cap + 3)])}")
                     continue
                 if rng.random() < p_enq:
-                    v = rng.choice([0, 1, 2**64 - 1]) if rng.random() < 0.1 else rng.randint(1, 999)
+                    v = rng.choice(WIDE) if rng.random() < 0.15 else rng.randint(1, 999)
                     ops.append(f"enqueue {v}")
                 else:
                     ops.append("dequeue")
